@@ -107,6 +107,8 @@ def main(args, script):
     n = args.runs or spec[tier]
     t0 = time.time()
     budget = args.budget_s or (None if tier == "quick" else 3300.0)
+    if budget and spec.get("hashseeds"):
+        budget = budget / 4.0        # the batch is executed under four hash seeds in turn
     deadline = (t0 + budget) if budget else None
     print("check=%s tier=%s VERIF_SEED=%d runs=%d src=%s" % (prop, tier, args.seed, n, os.environ.get("SERIF_SRC", "/repo/src")))
     sys.stdout.flush()
